@@ -241,6 +241,23 @@ CLAIMED["C16"] = dict(
     technique="Coq proof over a crash-state model of the protocol + syscall-trace correspondence + exhaustive kill-point runs",
     design="5/C16")
 
+CLAIMED["C13"] = dict(
+    text=("Model of the result table (headers + per-row extra cells), of the header lists and per-row cell counts of the column "
+          "generators of the minimal, MaxQuant and DIA-NN writers as functions of (experiments, #SILAC, #TMT), of writing with and "
+          "without a header dictionary, of the csv dialect (writer and reader state machine) and of the protein-group FDR filter. "
+          "Theorems: every generator appends as many cells as headers, for all experiment lists and labellings; the invariant "
+          "'unique headers and every row as long as the header' holds initially and is preserved by every generator, hence after "
+          "any generator sequence; dictionary outputs have one cell per entry; the DIA-NN dictionary refers only to produced "
+          "columns for ANY number of runs; csv_read (csv_write rows) = rows for ALL cell contents; the filter outputs header + "
+          "exactly the passing rows, unchanged, in order. Correspondence: CLI runs with --do_quant (1-3 experiments, label-free, "
+          "SILAC 2/3, TMT, --skip_lfq, DIA-NN 1-3 runs, minimal writer) - header vs model, row lengths, read-back of ids/q/score "
+          "vs in-memory results; byte-level comparison of the tool's tsv writer with the Coq writer and the Coq reader on the same "
+          "bytes; the filter tool on generated files."),
+    note=COMMON_NOTE + "Cell VALUES are C12's subject (only their number enters here). Triqler columns and FragPipe writers not "
+         "modelled. repr(float) round trip is a language guarantee; float(cell) <= cutoff tabulated. Axioms: none.",
+    technique="Coq invariant proof over generator sequences + csv state-machine round-trip proof + CLI/byte-level differential correspondence",
+    design="5/C13")
+
 ALL = [f"C{i:02d}" for i in range(1, 21)]
 
 
